@@ -770,7 +770,14 @@ class Interp(object):
                 extra["_it%d" % k_] = v_
             for name, expr in c.yields_each_:
                 self.path.oblige(self.oblname("yields_each/" + name), self.spec(expr, f.entry_env, extra=extra), kind="yield")
-        f.ytrace.add_item(v)
+        lt = getattr(f, "loop_ytrace", None)
+        if lt is not None:
+            # inside a cut loop with a yield ghost: the item extends the ghost sequence of the loop
+            trace, gname, genv, dflt = lt
+            trace.add_item(v)
+            genv.set(gname, trace.as_symseq(self, default=dflt))
+        else:
+            f.ytrace.add_item(v)
         self.path.event("yield", v)
         if f.verifying and f.node is not None and any(
                 isinstance(d, ast.Name) and d.id == "contextmanager" for d in f.node.decorator_list):
